@@ -169,6 +169,13 @@ Groups ==
        { {[k |-> "stmt", kind |-> "action", text |-> t, tags |-> <<>>, attrs |-> <<>>, pos |-> NoPos] : t \in Texts}
          \cup {[k |-> "stmt", kind |-> "call", app |-> a, ep |-> e, text |-> "", tags |-> <<>>, attrs |-> <<>>, pos |-> NoPos] :
                  a \in (Apps \ {fr.app}) \cup {"."}, e \in (IF CallsOnly THEN EpNames ELSE {"Ep", "Op"})}
+         \* a run of docstring lines (not the first statement of a REST method, where it is the endpoint's docstring,
+         \* and not right after another run, which it would join)
+         \cup (IF Rich /\ ~CallsOnly /\ ~(fr.k = "ep" /\ fr.own = 0 /\ \E f \in st.model : f[1] = "ep.rest" /\ f[2] = fr.app /\ f[3] = fr.ep)
+                   /\ ~(prog # <<>> /\ Last(prog).k = "stmt" /\ Last(prog).kind = "doc")
+               THEN {[k |-> "stmt", kind |-> "doc", lines |-> ls, text |-> "", tags |-> <<>>, attrs |-> <<>>, pos |-> NoPos] :
+                       ls \in {<<"one line">>, <<"first line", "second line">>, <<"a", "b", "c">>}}
+               ELSE {})
          \cup {[k |-> "stmt", kind |-> "ret", text |-> t, tags |-> <<>>, attrs |-> <<>>, pos |-> NoPos] :
                  t \in {"ok", "ok <: T", "error <: string", "ok <: sequence of T", "ok <: set of U", "ok <: sequence of string"}},
          (IF Len(st.scope) < MaxNest
